@@ -77,7 +77,8 @@ impl TableBuilder for TypeDeclaration {
                 global_table: Some(table),
                 local_table: None,
             };
-            let data_type = get_data_type(self.type_expr.as_mut(), Some(name), &lookup_table);
+            let data_type =
+                get_data_type(self.type_expr.as_mut(), Some(&name.value), &lookup_table);
             if table
                 .enter(
                     name.to_string(),
@@ -106,11 +107,11 @@ impl TableBuilder for ProcedureDeclaration {
             let parameters = self
                 .parameters
                 .iter_mut()
-                .filter_map(|param| build_parameter(param, table, &mut local_table))
+                .filter_map(|param| build_parameter(param, &name.value, table, &mut local_table))
                 .collect();
             self.variable_declarations
                 .iter_mut()
-                .for_each(|dec| build_variable(dec, table, &mut local_table));
+                .for_each(|dec| build_variable(dec, &name.value, table, &mut local_table));
             let entry = ProcedureEntry {
                 name: name.clone(),
                 local_table,
@@ -129,8 +130,17 @@ impl TableBuilder for ProcedureDeclaration {
     }
 }
 
+/// The creator of an array type that is written in a parameter or variable declaration.
+/// Such an anonymous type is different from every other type,
+/// so its creator must neither be the name of a type declaration
+/// nor the creator of a declaration in another procedure (`.` cannot occur in a name).
+fn anonymous_creator(procedure: &str, name: &Identifier) -> String {
+    format!("{}.{}", procedure, name)
+}
+
 fn build_parameter(
     param: &mut Reference<ParameterDeclaration>,
+    procedure: &str,
     global_table: &GlobalTable,
     local_table: &mut LocalTable,
 ) -> Option<VariableEntry> {
@@ -149,7 +159,8 @@ fn build_parameter(
                 global_table: Some(global_table),
                 local_table: None,
             };
-            let data_type = get_data_type(type_expr.as_mut(), Some(name), &lookup_table);
+            let creator = anonymous_creator(procedure, name);
+            let data_type = get_data_type(type_expr.as_mut(), Some(&creator), &lookup_table);
             let param_entry = VariableEntry {
                 name: name.clone(),
                 is_ref: *is_ref,
@@ -179,6 +190,7 @@ fn build_parameter(
 
 fn build_variable(
     var: &mut Reference<VariableDeclaration>,
+    procedure: &str,
     global_table: &GlobalTable,
     local_table: &mut LocalTable,
 ) {
@@ -196,7 +208,7 @@ fn build_variable(
             is_ref: false,
             data_type: get_data_type(
                 type_expr.as_mut(),
-                Some(name),
+                Some(&anonymous_creator(procedure, name)),
                 &LookupTable {
                     global_table: Some(global_table),
                     local_table: Some(local_table),
@@ -217,7 +229,7 @@ fn build_variable(
 
 fn get_data_type(
     type_expr: Option<&mut Reference<TypeExpression>>,
-    caller: Option<&Identifier>,
+    caller: Option<&str>,
     table: &LookupTable,
 ) -> Option<DataType> {
     type_expr.and_then(|type_expr| {
